@@ -107,6 +107,72 @@ def valAt (a : VP constVDom) (i : Nat) (v : V3) : Option Int :=
 
 end VPartEx
 
+namespace VPartEx
+
+/-- `x := y` as an operation on slot `d` -/
+def opXY (d : Nat) : VP.Op constVDom := .assign d 0 (cAssignV 0 1) (fun s s' => s' = s.set 0 (s 1))
+
+/-- slots 0, 1: the two values with three separated partitions -/
+def pool0 : Pool (VP constVDom) := fun i => if i = 0 then W0 else if i = 1 then Z0 else VP.top
+
+/-- slot 0 holds `(0,5,0)`, slot 1 holds `(2,5,0)` -/
+def cpool0 : CPool (St V3) := fun i s => (i = 0 ∧ s = st 0 5 0) ∨ (i = 1 ∧ s = st 2 5 0)
+
+end VPartEx
+
+/-! ### the interval history of the non-vacuity examples of `Props/C03Functors2.lean` -/
+namespace C03VPartEx
+open VPartEx
+
+def keys (a : VP itvVDom) : List Itv := a.parts.map (·.key)
+
+def vals (a : VP itvVDom) : List Itv := a.parts.map (·.val.1)
+
+
+/-- slot 0: `x = 0`, slot 1: `x ∈ [5,6]`, no partitioning yet -/
+def pool : Pool (VP itvVDom) := fun i =>
+  if i = 0 then ⟨none, [⟨Itv.top, WItv.mk 0 0⟩]⟩ else if i = 1 then ⟨none, [⟨Itv.top, WItv.mk 5 6⟩]⟩ else VP.top
+
+
+def cpool : CPool Int := fun i s => (i = 0 ∧ s = 0) ∨ (i = 1 ∧ s = 5)
+
+
+/-- partition start on both, `|`, `x := x + 6` -/
+def ops : List (VP.Op itvVDom) :=
+  [.vpStart 0 (), .vpStart 1 (), .join 2 0 1, .assign 2 () (itvAddK 6) (fun s s' => s' = s + 6)]
+
+
+/-- afterwards: partition end on a copy, `&` of the copy with the partitioned value, `&` of the
+    partitioned value with itself (element-wise: the guard `histOk` fires) -/
+def ops2 : List (VP.Op itvVDom) := ops ++ [.copy 3 2, .vpEnd 3 (), .meet 3 3 2]
+
+
+theorem ops_baseSound : ∀ op ∈ ops, op.BaseSound := by
+  intro op hop
+  simp only [ops, List.mem_cons, List.mem_nil_iff, or_false] at hop
+  rcases hop with rfl | rfl | rfl | rfl
+  · trivial
+  · trivial
+  · trivial
+  · exact itvAddK_sound 6
+
+
+theorem pool_inv : ∀ i, (pool i).Inv := by
+  intro i; unfold pool
+  split
+  · exact VP.inv_single _ _
+  · split <;> exact VP.inv_single _ _
+
+
+theorem pool_sound : ∀ i s, cpool i s → VP.γ (pool i) s := by
+  intro i s hc
+  rcases hc with ⟨rfl, rfl⟩ | ⟨rfl, rfl⟩
+  · exact γ_of_iMem (by decide)
+  · exact γ_of_iMem (by decide)
+
+
+end C03VPartEx
+
 end Fct
 end Dom
 end Crab
